@@ -319,4 +319,215 @@ theorem inv_finite_iff (n : ℝ) (hn : 0 < n) : |1 / n| < 2 ^ 1024 ↔ 1 / 2 ^ 1
   rw [abs_of_pos (by positivity)]
   exact one_div_lt hn (by positivity)
 
+/-! ## the circular case of `overlap_cone` -/
+
+theorem le_of_sq_le_sq' (x y : ℝ) (hy : 0 ≤ y) (h : x ^ 2 ≤ y ^ 2) : x ≤ y := by
+  by_contra hlt
+  rw [not_le] at hlt
+  nlinarith
+
+/-- the algebraic core of the circular case -/
+theorem circ_alg (s B Δ t σx σy D : ℝ) (hs : 0 ≤ s) (_hB : 0 ≤ B) (hΔ : 0 ≤ Δ) (ht0 : 0 ≤ t) (ht1 : t ≤ 1)
+    (hσx : 0 ≤ σx) (hσy : 0 ≤ σy) (hx : σx ^ 2 = B ^ 2 + (1 - t) * Δ) (hy : σy ^ 2 = B ^ 2 + t * Δ)
+    (hD : D ^ 2 ≤ (s + B) ^ 2) :
+    0 ≤ (s + σx) ^ 2 * (s + σy) ^ 2 - t * (1 - t) * Δ ^ 2 ∧
+    D ^ 2 * (t * (s + σy) ^ 2 + (1 - t) * (s + σx) ^ 2 + 2 * t * (1 - t) * Δ) ≤
+      (s + σx) ^ 2 * (s + σy) ^ 2 - t * (1 - t) * Δ ^ 2 := by
+  have h1t : 0 ≤ 1 - t := by linarith
+  have hBx : B ≤ σx := le_of_sq_le_sq' _ _ hσx (by rw [hx]; nlinarith [mul_nonneg h1t hΔ])
+  have hBy : B ≤ σy := le_of_sq_le_sq' _ _ hσy (by rw [hy]; nlinarith [mul_nonneg ht0 hΔ])
+  have hK : 0 ≤ t * (s + σy) ^ 2 + (1 - t) * (s + σx) ^ 2 + 2 * t * (1 - t) * Δ := by positivity
+  have hid : (s + σx) ^ 2 * (s + σy) ^ 2 - t * (1 - t) * Δ ^ 2 -
+      (s + B) ^ 2 * (t * (s + σy) ^ 2 + (1 - t) * (s + σx) ^ 2 + 2 * t * (1 - t) * Δ) =
+      2 * s * (t * (1 - t) * Δ * ((σx - B) + (σy - B)) + t * (s + σy) ^ 2 * (σx - B) + (1 - t) * (s + σx) ^ 2 * (σy - B)) := by
+    linear_combination (t * (s + σy) ^ 2 + t * (1 - t) * Δ) * hx + ((1 - t) * (s + σx) ^ 2 + t * (1 - t) * Δ) * hy
+  have hG : 0 ≤ 2 * s * (t * (1 - t) * Δ * ((σx - B) + (σy - B)) + t * (s + σy) ^ 2 * (σx - B) + (1 - t) * (s + σx) ^ 2 * (σy - B)) := by
+    have a1 : 0 ≤ σx - B := by linarith
+    have a2 : 0 ≤ σy - B := by linarith
+    positivity
+  have hEK : D ^ 2 * (t * (s + σy) ^ 2 + (1 - t) * (s + σx) ^ 2 + 2 * t * (1 - t) * Δ) ≤
+      (s + B) ^ 2 * (t * (s + σy) ^ 2 + (1 - t) * (s + σx) ^ 2 + 2 * t * (1 - t) * Δ) :=
+    mul_le_mul_of_nonneg_right hD hK
+  have hDK : 0 ≤ D ^ 2 * (t * (s + σy) ^ 2 + (1 - t) * (s + σx) ^ 2 + 2 * t * (1 - t) * Δ) := by positivity
+  constructor <;> linarith
+
+theorem sin_add_sub (d r : ℝ) : sin (d + r) - sin (d - r) = 2 * (cos d * sin r) := by rw [sin_add, sin_sub]; ring
+theorem sin_add_add (d r : ℝ) : sin (d + r) + sin (d - r) = 2 * (sin d * cos r) := by rw [sin_add, sin_sub]; ring
+
+
+
+
+theorem circ_overlap_core (S A B u v D st ct : ℝ) (hS : 0 ≤ S) (hB : 0 ≤ B) (hBA : B ≤ A) (huv : u * u + v * v = 1)
+    (hst : st * st + ct * ct = 1) (hD : D ^ 2 ≤ (S + B) ^ 2) :
+    ((Ellipse.fromOriented (α := ℝ) S S st ct).extendedGeom (Ellipse.fromOriented A B (-u) v)).contains (D * u) (D * v)
+      = true := by
+  unfold Ellipse.extendedGeom
+  have e1 : S * S * (ct * ct) + S * S * (st * st) = S ^ 2 := by linear_combination (S * S) * hst
+  have e2 : S * S * (st * st) + S * S * (ct * ct) = S ^ 2 := by linear_combination (S * S) * hst
+  have hA : 0 ≤ A := le_trans hB hBA
+  have hΔ : 0 ≤ A * A - B * B := by nlinarith
+  have ht0 : 0 ≤ u * u := mul_self_nonneg u
+  have ht1 : u * u ≤ 1 := by nlinarith [mul_self_nonneg v]
+  have ex : A * A * (v * v) + B * B * (-u * -u) = B ^ 2 + (1 - u * u) * (A * A - B * B) := by
+    linear_combination (A * A) * huv
+  have ey : A * A * (-u * -u) + B * B * (v * v) = B ^ 2 + u * u * (A * A - B * B) := by
+    linear_combination (B * B) * huv
+  have hx0 : 0 ≤ B ^ 2 + (1 - u * u) * (A * A - B * B) := by
+    have : 0 ≤ (1 - u * u) * (A * A - B * B) := mul_nonneg (by linarith) hΔ
+    positivity
+  have hy0 : 0 ≤ B ^ 2 + u * u * (A * A - B * B) := by positivity
+  obtain ⟨k1, k2⟩ := circ_alg S B (A * A - B * B) (u * u) (√(B ^ 2 + (1 - u * u) * (A * A - B * B)))
+    (√(B ^ 2 + u * u * (A * A - B * B))) D hS hB hΔ ht0 ht1 (Real.sqrt_nonneg _) (Real.sqrt_nonneg _)
+    (Real.sq_sqrt hx0) (Real.sq_sqrt hy0) hD
+  apply cov_contains_of
+  · simp only [Ellipse.fromOriented, Ellipse.fromCov, pow2, num_sqrt]
+    rw [e1, e2, ex, ey, Real.sqrt_sq hS]
+    linear_combination k1 + (u * u * (A * A - B * B) ^ 2) * huv
+  · simp only [Ellipse.fromOriented, Ellipse.fromCov, pow2, num_sqrt]
+    rw [e1, e2, ex, ey, Real.sqrt_sq hS]
+    linear_combination k2 + (D ^ 2 * (S + √(B ^ 2 + (1 - u * u) * (A * A - B * B))) ^ 2 +
+      2 * (u * u) * D ^ 2 * (A * A - B * B) + u * u * (A * A - B * B) ^ 2) * huv
+
+/-- the trigonometric core: if the two cones meet (`d ≤ a + r`), the near edge of the projected cone is within `sin a`
+    of the projection centre — also when the cone centre is on the far hemisphere -/
+theorem circ_trig (a r d : ℝ) (ha : 0 < a ∧ a < π / 2) (hr : 0 < r ∧ r ≤ π / 2) (hd0 : 0 ≤ d) (hdpi : d ≤ π)
+    (hd : d ≤ a + r) : sin d * cos r ≤ sin a + |cos d| * sin r := by
+  by_cases hc : 0 ≤ cos d
+  · rw [abs_of_nonneg hc]
+    have h1 : sin (d - r) ≤ sin a :=
+      sin_le_sin_of_le_of_le_pi_div_two (by linarith) (by linarith) (by linarith)
+    rw [sin_sub] at h1
+    linarith
+  · have hc' : cos d < 0 := not_le.mp hc
+    rw [abs_of_neg hc']
+    have hd2 : π / 2 < d := by
+      by_contra hle
+      have := cos_nonneg_of_mem_Icc (x := d) ⟨by linarith, not_lt.mp hle⟩
+      linarith
+    have h1 : sin (π - (d + r)) ≤ sin a :=
+      sin_le_sin_of_le_of_le_pi_div_two (by linarith) (by linarith) (by linarith)
+    rw [sin_pi_sub, sin_add] at h1
+    linarith
+
+/-- **`overlap_cone` is sound in the circular case** (`a = b < π/2`, `0 < r ≤ π/2`): if the cone of radius `r` around
+    `(l, φ)` meets the cone of radius `a` around the centre (`angular distance ≤ a + r`) the test answers `true` — for
+    every position of the cone centre, far hemisphere included — *outside the special case of the code*, i.e. when the
+    norm `sin d` of the projected cone centre exceeds `2^-1024` (`1 / norm` finite in `f64`).  In the special case the
+    code answers `r ≤ b`: see `overlap_cone_special_case`. -/
+theorem overlap_cone_circular_sound (lon lat a pa l φ r : ℝ) (ha : 0 < a ∧ a < π / 2) (hr : 0 < r ∧ r ≤ π / 2)
+    (hfin : 1 / 2 ^ 1024 < sin (adist (l, φ) (ProjSIN.new lon lat).c0))
+    (hd : adist (l, φ) (ProjSIN.new lon lat).c0 ≤ a + r) :
+    (ECone.new (α := ℝ) lon lat a a pa).overlapCone l φ r = some true := by
+  have hn : 0 < sin (adist (l, φ) (ProjSIN.new lon lat).c0) := lt_trans (by positivity) hfin
+  have h2 := (inv_finite_iff _ hn).mpr hfin
+  have h1 : ¬ (a + r < adist (l, φ) (ProjSIN.new lon lat).c0) := not_lt.mpr hd
+  have key := overlapCone_main (ECone.new (α := ℝ) lon lat a a pa) (ProjSIN.new_coherent lon lat) l φ r hr.1 h1 h2
+  rw [key]
+  simp only [ECone.new]
+  congr 1
+  have hd0 := adist_nonneg (l, φ) (ProjSIN.new lon lat).c0
+  have hdpi := adist_le_pi (l, φ) (ProjSIN.new lon lat).c0
+  have hsr : 0 ≤ sin r := sin_nonneg_of_nonneg_of_le_pi hr.1.le (by linarith [pi_pos])
+  have hcr : 0 ≤ cos r := cos_nonneg_of_mem_Icc ⟨by linarith [pi_pos], hr.2⟩
+  have hB : 1 / 2 * |sin (adist (l, φ) (ProjSIN.new lon lat).c0 + r) - sin (adist (l, φ) (ProjSIN.new lon lat).c0 - r)|
+      = |cos (adist (l, φ) (ProjSIN.new lon lat).c0)| * sin r := by
+    rw [sin_add_sub, abs_mul, abs_mul, abs_of_nonneg hsr, abs_of_pos (by norm_num : (0 : ℝ) < 2)]; ring
+  have hDD : 1 / 2 * (sin (adist (l, φ) (ProjSIN.new lon lat).c0 + r) + sin (adist (l, φ) (ProjSIN.new lon lat).c0 - r))
+      = sin (adist (l, φ) (ProjSIN.new lon lat).c0) * cos r := by
+    rw [sin_add_add]; ring
+  rw [hB, hDD]
+  refine circ_overlap_core _ _ _ _ _ _ _ _ (sin_nonneg_of_nonneg_of_le_pi ha.1.le (by linarith [pi_pos]))
+    (mul_nonneg (abs_nonneg _) hsr) ?_ ?_ (theta_unit pa) ?_
+  · calc |cos (adist (l, φ) (ProjSIN.new lon lat).c0)| * sin r ≤ 1 * sin r :=
+          mul_le_mul_of_nonneg_right (abs_cos_le_one _) hsr
+      _ = sin r := one_mul _
+  · have := sinXY_norm (ProjSIN.new lon lat).c0 (l, φ)
+    field_simp
+    linarith
+  · have ht := circ_trig a r _ ha hr hd0 hdpi hd
+    have hnn : 0 ≤ sin (adist (l, φ) (ProjSIN.new lon lat).c0) * cos r := mul_nonneg hn.le hcr
+    exact pow_le_pow_left₀ hnn ht 2
+
+/-- **the special case of the code is not sound on its own**: when `0 < sin d ≤ 2^-1024` (in `f64`: whenever the
+    projected cone centre has norm `0`, e.g. the cell centre *is* the ellipse centre) `overlap_cone` answers `r ≤ b`
+    whatever the geometry -/
+theorem overlap_cone_special_case (lon lat a b pa l φ r : ℝ) (hr : 0 < r)
+    (hpos : 0 < sin (adist (l, φ) (ProjSIN.new lon lat).c0))
+    (hsmall : sin (adist (l, φ) (ProjSIN.new lon lat).c0) ≤ 1 / 2 ^ 1024)
+    (hd : adist (l, φ) (ProjSIN.new lon lat).c0 ≤ a + r) :
+    (ECone.new (α := ℝ) lon lat a b pa).overlapCone l φ r = some (decide (r ≤ b)) := by
+  have h1 : ¬ (a + r < adist (l, φ) (ProjSIN.new lon lat).c0) := not_lt.mpr hd
+  have h2 : ¬ |1 / sin (adist (l, φ) (ProjSIN.new lon lat).c0)| < 2 ^ 1024 := by
+    rw [inv_finite_iff _ hpos]; exact not_lt.mpr hsmall
+  exact overlapCone_special (ECone.new (α := ℝ) lon lat a b pa) (ProjSIN.new_coherent lon lat) l φ r hr h1 h2
+
+/-! ## the skip test in the circular case -/
+
+theorem adist_same_lon (l φ : ℝ) (h0 : 0 ≤ φ) (hpi : φ ≤ π) : adist (l, φ) (l, 0) = φ := by
+  have h := cos_adist (l, φ) (l, 0)
+  simp at h
+  exact injOn_cos ⟨adist_nonneg _ _, adist_le_pi _ _⟩ ⟨h0, hpi⟩ h
+
+theorem tiny_lt : (1 : ℝ) / 2 ^ 1024 < 7 / 100 := by
+  have : (2 : ℝ) ^ 10 ≤ 2 ^ 1024 := pow_le_pow_right₀ (by norm_num) (by norm_num)
+  calc (1 : ℝ) / 2 ^ 1024 ≤ 1 / 2 ^ 10 := one_div_le_one_div_of_le (by positivity) this
+    _ < 7 / 100 := by norm_num
+
+/-- **the skip test of the descent is sound in the circular case**: `a = b`, `2^-1024 < sin a`, `0 < r ≤ π/2`,
+    `a + r ≤ 3`: if the cone `(l, φ), r` meets the cone of radius `a` around the centre, then either `(l, φ)` is in the
+    elliptical cone or `overlap_cone` answers `true` — the cell is not skipped -/
+theorem circular_keep_sound (lon lat a pa l φ r : ℝ) (ha : 0 < a ∧ a < π / 2) (hmin : 1 / 2 ^ 1024 < sin a)
+    (hr : 0 < r ∧ r ≤ π / 2) (har : a + r ≤ 3)
+    (hd : adist (l, φ) (ProjSIN.new lon lat).c0 ≤ a + r) :
+    (ECone.new (α := ℝ) lon lat a a pa).contains l φ = true ∨
+      (ECone.new (α := ℝ) lon lat a a pa).overlapCone l φ r = some true := by
+  by_cases hfin : 1 / 2 ^ 1024 < sin (adist (l, φ) (ProjSIN.new lon lat).c0)
+  · exact Or.inr (overlap_cone_circular_sound lon lat a pa l φ r ha hr hfin hd)
+  · left
+    rw [econe_contains_circular' lon lat a pa l φ ha]
+    have hd0 := adist_nonneg (l, φ) (ProjSIN.new lon lat).c0
+    have hlt : sin (adist (l, φ) (ProjSIN.new lon lat).c0) < sin a := lt_of_le_of_lt (not_lt.mp hfin) hmin
+    by_cases hhalf : adist (l, φ) (ProjSIN.new lon lat).c0 ≤ π / 2
+    · by_contra hgt
+      have := sin_le_sin_of_le_of_le_pi_div_two (x := a) (y := adist (l, φ) (ProjSIN.new lon lat).c0)
+        (by linarith only [ha.1, pi_pos]) hhalf (not_le.mp hgt).le
+      linarith only [this, hlt]
+    · exfalso
+      have hpi3 := pi_gt_d2
+      have hpi4 := pi_lt_four
+      have h1 := mul_le_sin (x := π - adist (l, φ) (ProjSIN.new lon lat).c0) (by linarith [adist_le_pi (l, φ) (ProjSIN.new lon lat).c0]) (by linarith)
+      rw [sin_pi_sub] at h1
+      have h2 : (1 : ℝ) / 2 ≤ 2 / π := by rw [div_le_div_iff₀ (by norm_num) pi_pos]; linarith
+      have h3 : (7 : ℝ) / 100 ≤ 2 / π * (π - adist (l, φ) (ProjSIN.new lon lat).c0) := by
+        calc (7 : ℝ) / 100 = 1 / 2 * (14 / 100) := by norm_num
+          _ ≤ 2 / π * (π - adist (l, φ) (ProjSIN.new lon lat).c0) :=
+            mul_le_mul h2 (by linarith) (by norm_num) (by positivity)
+      have htl := tiny_lt
+      have hfin' := not_lt.mp hfin
+      generalize (1 : ℝ) / 2 ^ 1024 = τ at htl hfin'
+      linarith only [htl, hfin', h1, h3]
+
+/-- a concrete instance of the special case: ellipse centre `(0, 0)`, `a = b = 1/10`; the cone of radius `1/5` around
+    `(0, 2^-1024)` contains the centre, yet `overlap_cone` answers `false`; the point is inside the ellipse, which is
+    what keeps the cell in the coverage -/
+theorem overlap_cone_special_case_counterexample :
+    adist (0, 1 / 2 ^ 1024) (ProjSIN.new (α := ℝ) 0 0).c0 ≤ 1 / 5 ∧
+    (ECone.new (α := ℝ) 0 0 (1 / 10) (1 / 10) 0).overlapCone 0 (1 / 2 ^ 1024) (1 / 5) = some false ∧
+    (ECone.new (α := ℝ) 0 0 (1 / 10) (1 / 10) 0).contains 0 (1 / 2 ^ 1024) = true := by
+  have hc0 : (ProjSIN.new (α := ℝ) 0 0).c0 = (0, 0) :=
+    ProjSIN.new_c0 0 0 ⟨le_refl _, by positivity⟩ ⟨by linarith [pi_pos], by linarith [pi_pos]⟩
+  have hpos : (0 : ℝ) < 1 / 2 ^ 1024 := by positivity
+  have hd : adist (0, 1 / 2 ^ 1024) (ProjSIN.new (α := ℝ) 0 0).c0 = 1 / 2 ^ 1024 := by
+    rw [hc0]; exact adist_same_lon 0 _ hpos.le (le_trans tiny_lt.le (by linarith only [pi_gt_three]))
+  have ha : (0 : ℝ) < 1 / 10 ∧ (1 : ℝ) / 10 < π / 2 := ⟨by norm_num, by linarith [pi_gt_three]⟩
+  have t5 : (1 : ℝ) / 2 ^ 1024 ≤ 1 / 5 := le_trans tiny_lt.le (by norm_num)
+  have t10 : (1 : ℝ) / 2 ^ 1024 ≤ 1 / 10 := le_trans tiny_lt.le (by norm_num)
+  have tpi : (1 : ℝ) / 2 ^ 1024 < π := lt_trans tiny_lt (by linarith only [pi_gt_three])
+  refine ⟨by rw [hd]; exact t5, ?_, ?_⟩
+  · rw [overlap_cone_special_case 0 0 (1 / 10) (1 / 10) 0 0 (1 / 2 ^ 1024) (1 / 5) (by norm_num)
+      (by rw [hd]; exact sin_pos_of_pos_of_lt_pi hpos tpi)
+      (by rw [hd]; exact sin_le hpos.le) (by rw [hd]; exact le_trans t5 (by norm_num))]
+    norm_num
+  · rw [econe_contains_circular' 0 0 (1 / 10) 0 0 _ ha, hd]; exact t10
+
 end Hpx.Sph
